@@ -17,7 +17,10 @@ META = dict(
               "(`with state.auto_fork(m)`, also left by an exception) are a derived form of the model (State/StateScoped.v: set mode, body up to "
               "the first error, previous mode always put back) to which the theorems are lifted, executed through the real context manager and "
               "compared event by event (results + auto_fork_type + _last_fork inside and after every block), plus an implementation-side oracle "
-              "against the documented scoping written out",
+              "against the documented scoping written out; WeightedTensor values whose WEIGHT is computed by a node function are a second executable "
+              "value domain (State/StateWExec.v: value + boolean weight per entry, mix = what `_select` does = row-wise selection of value AND weight) for "
+              "which F_mix is proved and on which the same exact comparison runs (weights compared entry by entry; directed weight-flipping partial "
+              "reverts for every mask)",
     level_text="For every value type, every well-formed graph, every history of get/set/put/revert/partial revert/clone/mode "
                "switch/precompute/clear on any number of states: a successful read is the from-scratch evaluation of the current "
                "independent values, a read fails (input error) iff that evaluation needs an unset independent value, reads are "
@@ -53,6 +56,9 @@ OBLIGATIONS = [
     # histories with scoped fork-mode switches, `with state.auto_fork(m): ...` (State/StateScoped.v)
     "C01_never_stale_scoped", "C01_scoped_reads_are_scratch", "C01_scoped_is_history", "C01_scoped_restores_mode",
     "C01_scoped_later_history", "C01_scoped_examples",
+    # weighted values (State/StateWExec.v): node functions that compute the WEIGHT of a WeightedTensor from their inputs; mix = _select
+    # = row-wise selection of value AND weight
+    "C01_weighted_select_rows", "C01_F_mix_weighted", "C01_never_stale_weighted", "C01_weighted_examples",
 ]
 
 # The model variant the theorems of Props/C01.v are about (State/StateNow.v): True = State.__setitem__ as it is since 27ac519
@@ -84,6 +90,19 @@ SCASE_TYPE = "list nspec * list xsop * list (xobs * bool)"
 SCOPE_SIG = "auto-fork-scope:mode-not-restored"
 SCOPE_DIFF_SIG = "auto-fork-scope:differs-from-documented-scoping"
 ALIAS_SIG = "clone:shares-storage-with-source"
+
+
+# graphs using the weighted vocabulary (WeightedTensor values whose weight is computed by a node function): State/StateWExec.v
+WHEADER = ("From Coq Require Import ZArith List Bool.\nFrom Leaspy Require Import State.StateModel State.StateExec State.StateWExec.\n"
+           "Import ListNotations.\nOpen Scope Z_scope.\nOpen Scope nat_scope.\n")
+WCASE_TYPE = "list wspec * list (wop * out wval * bool)"
+WEIGHT_SIG = "partial-revert-weight-stale"
+
+
+def wchecker():
+    """weighted graphs: `_select` = row-wise selection of value AND weight (wsem_where).  There is no weighted instance of the blend of
+    the code before fe0cadd: a tree that blends is reported by the plain histories."""
+    return f"(check_wcase_with wsem_where {'true' if FX else 'false'})"
 
 
 def schecker():
@@ -133,6 +152,17 @@ def settle_variant(run: Run):
     return fx, mix
 
 
+def sig_of(taint):
+    """the finding a stale read belongs to, from what happened to the state before it"""
+    if "unforked" in taint:
+        return F1_SIG
+    if "nonfinite-mask" in taint and MIX != CLAIMED_MIX:
+        return F2_SIG
+    if "weighted-mask" in taint:
+        return WEIGHT_SIG
+    return "stale-read"
+
+
 def classify(run: Run, G, sess, what_prefix=""):
     """Turn the oracle mismatches of one session into failures (or known findings / misuse counts)."""
     ops = [r[0] for r in sess.records]
@@ -141,13 +171,12 @@ def classify(run: Run, G, sess, what_prefix=""):
         if "mask" in taint:
             run.count("oracle", "stale-after-misused-partial-revert (precondition violated, not a failure)")
             continue
-        sig = F1_SIG if "unforked" in taint else F2_SIG if ("nonfinite-mask" in taint and MIX != CLAIMED_MIX) else "stale-read"
+        sig = sig_of(taint)
         prefix = ops[: mm["step"] + 1]
 
         def still(cand, _sig=sig):
             s2 = T.run_ops(G, cand, fx=FX)
-            return any(("unforked" in m["taint"]) == (_sig == F1_SIG) and ("nonfinite-mask" in m["taint"] or _sig != F2_SIG)
-                       and "mask" not in m["taint"] for m in s2.mismatches)
+            return any(sig_of(set(m["taint"])) == _sig and "mask" not in m["taint"] for m in s2.mismatches)
         small = T.shrink(G, prefix, still) if len(prefix) <= 60 else prefix
         s3 = T.run_ops(G, small, fx=FX)
         m3 = next((m for m in s3.mismatches if "mask" not in m["taint"]), mm)
@@ -162,6 +191,9 @@ def classify(run: Run, G, sess, what_prefix=""):
             "matches the independent values" if sig == F1_SIG else
             "a per-individual revert applied while a cached value of the discarded side is inf/NaN leaves NaN in the kept rows of a cached "
             "derived value (old*mask + cur*~mask is not a selection): the read differs from the from-scratch evaluation" if sig == F2_SIG else
+            "after a per-individual revert applied while a WeightedTensor node of the forked sub-graph was cached on both sides, a read (value or "
+            "WEIGHT of that node, or a variable derived from it) differs from the from-scratch evaluation on the current independent values: "
+            "the weight of a row has to come from the same side as its value" if sig == WEIGHT_SIG else
             "a read returns a value different from the from-scratch evaluation on the current independent values"),
             dict(graph=G.to_json(), ops=small, node=m3["node"], state=m3["state"]),
             expected=m3["expected"], observed=m3["observed"])
@@ -169,12 +201,18 @@ def classify(run: Run, G, sess, what_prefix=""):
 
 def correspond(run: Run, name, sessions, metas):
     """plain histories through `check_case_with`, histories with scoped blocks / looks through `check_scase_with`"""
-    plain = [i for i, s in enumerate(sessions) if not is_scoped(s)]
-    scoped = [i for i, s in enumerate(sessions) if is_scoped(s)]
+    plain = [i for i, s in enumerate(sessions) if not is_scoped(s) and not s.G.weighted]
+    weighted = [i for i, s in enumerate(sessions) if s.G.weighted]
+    scoped = [i for i, s in enumerate(sessions) if is_scoped(s) and not s.G.weighted]
     bad = []
     if plain:
         b = _correspond(run, name, [sessions[i] for i in plain], [metas[i] for i in plain], False)
         bad += [plain[j] for j in (b or [])]
+    if weighted:
+        if any(is_scoped(sessions[i]) for i in weighted):
+            run.broken("tie:weighted-scoped", "a history on a weighted graph contains scoped blocks: no Coq instance compares those", kind="broken-correspondence")
+        b = _correspond(run, name + "_weighted", [sessions[i] for i in weighted], [metas[i] for i in weighted], "weighted")
+        bad += [weighted[j] for j in (b or [])]
     if scoped:
         b = _correspond(run, name + "_scoped", [sessions[i] for i in scoped], [metas[i] for i in scoped], True)
         bad += [scoped[j] for j in (b or [])]
@@ -182,7 +220,10 @@ def correspond(run: Run, name, sessions, metas):
 
 
 def _correspond(run: Run, name, sessions, metas, scoped):
-    if scoped:
+    if scoped == "weighted":
+        cases = [s.coq_case() for s in sessions]
+        bad = run.vm_bad_indices(name, WHEADER, WCASE_TYPE, cases, wchecker(), shard=150)
+    elif scoped:
         cases = [s.coq_scase() for s in sessions]
         bad = run.vm_bad_indices(name, SHEADER, SCASE_TYPE, cases, schecker(), shard=150)
     else:
@@ -201,7 +242,9 @@ def _correspond(run: Run, name, sessions, metas, scoped):
 
         def prefix_bad(n):
             s2 = T.run_ops(G, ops[:n], fx=FX, oracle=False)
-            if scoped:
+            if scoped == "weighted":
+                r = run.vm_bad_indices(name + "_loc", WHEADER, WCASE_TYPE, [s2.coq_case()], wchecker())
+            elif scoped:
                 r = run.vm_bad_indices(name + "_loc", SHEADER, SCASE_TYPE, [s2.coq_scase()], schecker())
             else:
                 r = run.vm_bad_indices(name + "_loc", HEADER, CASE_TYPE, [s2.coq_case()], checker())
@@ -215,7 +258,7 @@ def _correspond(run: Run, name, sessions, metas, scoped):
         op, out, ok = s.records[lo - 1]
         run.fail(f"model-vs-code:{op[0]}", "the State implementation and the Coq model of state.py disagree on the result of an operation "
                  "(or on the cache contents / the discipline flag" + (" / auto_fork_type and _last_fork observed inside and after a "
-                 "`with state.auto_fork(..)` block" if scoped else "") + "): the theorems no longer speak about this code",
+                 "`with state.auto_fork(..)` block" if scoped is True else " / the WEIGHTS of a WeightedTensor value" if scoped == "weighted" else "") + "): the theorems no longer speak about this code",
                  dict(graph=G.to_json(), ops=ops[:lo], **metas[i]), expected="result computed by the model (see coq/tmp)",
                  observed=dict(op=op, out=out, disciplined=ok), kind="broken-correspondence")
     return bad
@@ -398,32 +441,44 @@ def first_result_difference(a, b):
     return None
 
 
-def toy_histories(run: Run, n_hist):
+def toy_histories(run: Run, n_hist, n_weighted=0):
+    """`n_hist` histories on plain toy graphs + `n_weighted` on graphs using the weighted vocabulary (no scoped blocks there)"""
     sessions, metas = [], []
+    wstats = dict(histories=0, partial_reverts_over_a_doubly_cached_weighted_node=0, of_which_the_weights_differ_between_the_sides=0,
+                  histories_with_such_a_revert=0, reads_of_weighted_nodes=0)
     f1 = dict(histories_with_unforked_assignment_over_pending_fork=0, histories_with_revert_after_it=0,
               histories_with_read_after_that_revert=0, reads_after_that_revert=0, revert_outcomes={})
     sc = new_sc()
-    for h in range(n_hist):
+    for h in range(n_hist + n_weighted):
         rng = run.rng("toy", h)
         malformed = rng.random() < 0.3
-        G = T.gen_graph(rng)
+        weighted = h >= n_hist
+        G = T.gen_graph(rng, weighted=weighted)
         G.nonfinite = G.dtype == "float64" and rng.random() < 0.5   # +-inf among the assigned values (NaN follows from inf - inf)
         try:
             G.build()
         except Exception as e:  # a generated graph leaspy refuses: not a case
             run.count("graph", f"refused:{type(e).__name__}")
             continue
-        s = T.gen_history(rng, G, malformed=malformed, fx=FX)
+        if weighted and not G.weighted:
+            run.count("graph", "weighted stream: no node carries the individual axis (plain graph)")
+        s = T.gen_history(rng, G, malformed=malformed, fx=FX, scoped=not G.weighted)
         ops = [r[0] for r in s.records]
+        if G.weighted:
+            wstats["histories"] += 1
+            wstats["partial_reverts_over_a_doubly_cached_weighted_node"] += s.weighted_masks
+            wstats["of_which_the_weights_differ_between_the_sides"] += s.weight_flipping_masks
+            wstats["histories_with_such_a_revert"] += bool(s.weight_flipping_masks)
+            wstats["reads_of_weighted_nodes"] += sum(1 for op, out, _ in s.records if op[0] == "get" and out[0] == "ok" and T.is_weighted_json(out[1]))
         count_f1_shape(run, s, f1)
         run.count("values", "float64 with +-inf/NaN" if G.nonfinite else G.dtype + " finite")
         if s.nonfinite_masks:
             run.count("partial_reverts_over_nonfinite_cached_values", "histories")
             run.count("partial_reverts_over_nonfinite_cached_values", "reverts", s.nonfinite_masks)
         sessions.append(s)
-        metas.append(dict(stream="malformed" if malformed else "valid", case=h))
+        metas.append(dict(stream=("weighted-" if G.weighted else "") + ("malformed" if malformed else "valid"), case=h))
         run.case(("toy", json.dumps(G.to_json(), sort_keys=True), json.dumps(ops)), nontrivial=T.nontrivial(ops))
-        run.count("stream", "malformed" if malformed else "valid")
+        run.count("stream", ("weighted-" if G.weighted else "") + ("malformed" if malformed else "valid"))
         run.count("graph_nodes", len(G.order))
         run.count("n_states", len(s.states))
         run.count("history_len", (len(ops) // 10) * 10)
@@ -445,6 +500,14 @@ def toy_histories(run: Run, n_hist):
                   "operation of the body leaves the block(s) and is caught by the harness; auto_fork_type and _last_fork are recorded "
                   "just inside and just after every block and compared with the model inside Coq")
     run.extra["scoped_toy_histories"] = sc
+    wstats["note"] = ("graphs with WeightedTensor nodes whose weight is computed from a per-individual parent (x >= thr); a partial revert over a "
+                      "doubly cached weighted node whose weights differ between the forked and the current side is where a `_select` that "
+                      "keeps one side's weight goes wrong; values AND weights of every read are compared with the model inside Coq and with a "
+                      "fresh State bit for bit")
+    run.extra["weighted_toy_histories"] = wstats
+    if n_weighted and wstats["histories_with_such_a_revert"] < max(5, n_weighted // 40):
+        run.broken("generator:weighted-shape", f"the toy-history generator produced too few partial reverts over doubly cached weighted nodes "
+                   f"whose weights differ between the two sides: {wstats}", kind="broken-correspondence")
     if sc["reads_after_those_reverts"] < max(5, n_hist // 100) or sc["blocks_whose_previous_mode_is_not_REF"] < max(5, n_hist // 100):
         run.broken("generator:scoped-shape", f"the toy-history generator produced too few scoped blocks left by an exception and followed by "
                    f"a revert and reads: {sc}", kind="broken-correspondence")
@@ -511,6 +574,112 @@ def directed_nonfinite(run: Run):
             metas.append(dict(stream="directed-log", case=len(sessions)))
     correspond(run, "nonfinite", sessions, metas)
     run.sample(dict(kind="partial revert over a NaN discarded side on the real State", ops=T.F2_OPS, last_read=last))
+
+
+ONSET_CHAIN = T.ToyGraph([
+    dict(name="a", kind="ind", parents=[]),
+    dict(name="b", kind="linked", parents=["a"], fun=["wthr", 1, [2], 0]),
+    dict(name="c", kind="linked", parents=["b"], fun=["wmap", -1, [3]]),
+    dict(name="d", kind="linked", parents=["c"], fun=["wwgt", 0, [1]]),
+    dict(name="e", kind="linked", parents=["c"], fun=["wsum", 2, [-1]]),
+    dict(name="k", kind="linked", parents=["b"], fun=["wcnt", 0, [1]]),
+    dict(name="m", kind="linked", parents=["d", "a"], fun=["affine", 0, [1, 1]]),
+], 3, "float64")
+
+
+def directed_weighted(run: Run):
+    """The shape of the seeded defect "_select keeps one side's weight": a derived WeightedTensor whose WEIGHT depends on the assigned
+    per-individual variable (w = WeightedTensor(x, weight=(x >= 3))), auto-fork on, the node read before and after a proposal that flips
+    weights, `revert(mask)` for EVERY mask, then reads of the weighted node, of the per-individual weighted value and of the aggregates
+    (count of the weights, weighted sum).  Also with +-inf proposals (float64) and on a chain wthr -> wmap -> weight / weighted sum."""
+    sessions, metas = [], []
+    G = T.ONSET_GRAPH
+    G.build()
+    s0 = T.run_ops(G, T.ONSET_OPS, fx=FX)
+    run.extra["onset_history_on_this_tree"] = dict(ops=T.ONSET_OPS, reads_after_the_partial_revert=[list(r[1]) for r in s0.records[-3:]],
+                                                   expected=[["ok", {"wv": [5, 5, 2, 3], "ww": [1, 1, 0, 1]}], ["ok", 3], ["ok", 13]])
+    run.sample(dict(kind="partial revert over a WeightedTensor whose weight depends on the assigned variable (real State)", ops=T.ONSET_OPS,
+                    reads=[list(r[1]) for r in s0.records]))
+    Gf = T.ToyGraph.from_json(dict(G.to_json(), dtype="float64"))
+    Gf.build()
+    Gc = ONSET_CHAIN
+    Gc.build()
+    plans = []
+    for mask in itertools.product([False, True], repeat=4):
+        for delta in ([4, -4, 4, -4], [4, -4, 0, 0], [1, 1, 1, -5]):
+            for before, mid in ((["c"], ["c"]), (["b"], ["b", "c"]), (["e"], ["b"]), ([], ["c"])):
+                plans.append((G, [1, 5, 2, 7], delta, list(mask), before, mid, ["b", "c", "d", "e"]))
+        for delta in (["inf", -4, "-inf", 0], [0, "inf", 4, "-inf"]):
+            plans.append((Gf, [1, 5, 2, 7], delta, list(mask), ["c"], ["b", "c"], ["b", "c", "d", "e"]))
+    for mask in itertools.product([False, True], repeat=3):
+        for delta in ([3, -3, 1], [-2, 0, 2], ["inf", -3, "-inf"]):
+            plans.append((Gc, [-1, 1, 0], delta, list(mask), ["d"], ["c", "d", "m"], ["b", "c", "d", "e", "k", "m"]))
+    for (g, x0, delta, mask, before, mid, after) in plans:
+        ops = ([["mode", 0, "REF"], ["set", 0, "a", x0]] + [["get", 0, n] for n in before] + [["put", 0, "a", None, delta, True]]
+               + [["get", 0, n] for n in mid] + [["revmask", 0, mask]] + [["get", 0, n] for n in after])
+        s = T.run_ops(g, ops, fx=FX)
+        run.case(("directed-weighted", g.dtype, len(g.nodes), tuple(delta), tuple(mask), tuple(before), tuple(mid)), nontrivial=True)
+        run.count("directed_weighted", "partial revert over a doubly cached weighted node" + (", weights differ" if s.weight_flipping_masks else ", same weights"))
+        classify(run, g, s)
+        sessions.append(s)
+        metas.append(dict(stream="directed-weighted", case=len(sessions)))
+    correspond(run, "dweighted", sessions, metas)
+
+
+def weighted_nd_case(delta, mask):
+    """The demonstration's graph with (n_individuals, n_visits) values: since_onset = WeightedTensor(t - tau, weight=(t >= tau)); per-individual
+    and aggregated consumers.  Outside the Coq vocabulary (1-d values): implementation-side oracle only.  Returns None or (node, expected, observed)."""
+    import torch
+    from leaspy.utils.weighted_tensor import WeightedTensor
+    from leaspy.variables.dag import VariablesDAG
+    from leaspy.variables.specs import DataVariable, LinkedVariable
+    from leaspy.variables.state import State, StateForkType
+    dag = VariablesDAG.from_dict({
+        "tau": DataVariable(), "t": DataVariable(),
+        "since_onset": LinkedVariable(lambda *, t, tau: WeightedTensor(t - tau, weight=(t >= tau))),
+        "sq_ind": LinkedVariable(lambda *, since_onset: (since_onset.weighted_value ** 2).sum(dim=1)),
+        "n_visits_ind": LinkedVariable(lambda *, since_onset: since_onset.weight.sum(dim=1)),
+        "exposure": LinkedVariable(lambda *, since_onset: since_onset.weighted_value.sum()),
+    })
+    n = len(mask)
+    t = 60.0 + 5.0 * torch.arange(5, dtype=torch.float64).repeat(n, 1)
+    tau0 = torch.tensor([[62.0], [68.0], [71.0], [74.0]], dtype=torch.float64)[:n]
+    st = State(dag, auto_fork_type=StateForkType.REF)
+    st["t"] = t
+    st["tau"] = tau0
+    st["sq_ind"]
+    st.put("tau", torch.tensor([[float(d)] for d in delta], dtype=torch.float64), accumulate=True)
+    st["sq_ind"]
+    st.revert(torch.tensor([bool(m) for m in mask]))
+    fresh = State(dag)
+    fresh["t"] = st["t"]
+    fresh["tau"] = st["tau"]
+    for name in ("since_onset", "sq_ind", "n_visits_ind", "exposure"):
+        a, b = st[name], fresh[name]
+        if not T.same_tensor(a, b):
+            d = lambda v: dict(value=v.value.tolist(), weight=v.weight.tolist()) if hasattr(v, "weighted_value") else v.tolist()
+            return (name, d(b), d(a))
+    return None
+
+
+def directed_weighted_nd(run: Run):
+    for mask in itertools.product([False, True], repeat=4):
+        for delta in ([6, -6, 6, -6], [-3, 11, 0, -20]):
+            run.case(("weighted-nd", mask, tuple(delta)), nontrivial=True, validated=False)
+            run.count("directed_weighted", "(n, visits)-shaped weighted node, implementation-side oracle")
+            try:
+                r = weighted_nd_case(delta, mask)
+            except Exception as e:  # noqa
+                run.fail(WEIGHT_SIG + ":nd-raises", f"State.revert(mask) over a (n, visits)-shaped WeightedTensor raised {type(e).__name__}: {e}",
+                         dict(kind="weighted-nd", delta=list(delta), mask=[int(m) for m in mask]))
+                return
+            if r is not None:
+                run.fail(WEIGHT_SIG, "after a per-individual revert, a read of a (n, visits)-shaped WeightedTensor node whose weight depends on the assigned "
+                         f"variable — or of a variable derived from it — differs from the from-scratch evaluation (node '{r[0]}')",
+                         dict(kind="weighted-nd", delta=list(delta), mask=[int(m) for m in mask], node=r[0],
+                              graph="since_onset = WeightedTensor(t - tau, weight=(t >= tau)); sq_ind, n_visits_ind, exposure"),
+                         expected=r[1], observed=r[2])
+                return
 
 
 def exhaustive_diamond(run: Run, max_len):
@@ -813,7 +982,13 @@ def main(run: Run):
     directed(run)
     directed_nonfinite(run)
     directed_scoped(run)
-    toy_histories(run, 6000 if thorough else 1500)
+    try:
+        directed_weighted(run)
+        directed_weighted_nd(run)
+    except Exception as e:  # noqa
+        import traceback
+        run.broken("directed-weighted", f"{type(e).__name__}: {e}\n{traceback.format_exc()[-1500:]}")
+    toy_histories(run, 6000 if thorough else 1500, n_weighted=1600 if thorough else 400)
     if thorough:
         exhaustive_diamond(run, 3)
     kinds = [("logistic", {}), ("logistic", dict(source_dimension=2))]
@@ -831,6 +1006,12 @@ def replay(run: Run, path: str):
     use_impl()
     d = json.load(open(path))
     inp = d.get("input") or {}
+    if inp.get("kind") == "weighted-nd":
+        r = weighted_nd_case(inp["delta"], inp["mask"])
+        print(f"since_onset = WeightedTensor(t - tau, weight=(t >= tau)); tau += {inp['delta']}; revert(mask={inp['mask']}):",
+              "every read is the from-scratch value" if r is None else f"STALE node {r[0]}\n expected {r[1]}\n observed {r[2]}")
+        print("REPLAY", "FAILS" if r else "passes")
+        return 1 if r else 0
     if "graph" not in inp:
         print("replay: no toy history recorded in this file (broken obligation or shipped-model history); re-running the check")
         return main(run)
@@ -862,15 +1043,20 @@ def replay(run: Run, path: str):
             scope_bad = True
             print("SCOPE: the bookkeeping (auto_fork_type / _last_fork) differs from the documented scoping")
         r = run.vm_bad_indices("replay", SHEADER, SCASE_TYPE, [s.coq_scase()], schecker())
+    elif G.weighted:
+        r = run.vm_bad_indices("replay", WHEADER, WCASE_TYPE, [s.coq_case()], wchecker())
     else:
         r = run.vm_bad_indices("replay", HEADER, CASE_TYPE, [s.coq_case()], checker())
     for a in s.alias_violations:
         scope_bad = True
         print(f"ALIAS: the clone made at step {a['step']} shares with its source: {a['shared']}")
-    print(f"model (fx = {'true' if FX else 'false'}, {SEM[MIX]}) agrees with the implementation on this history:", r == [])
+    print(f"model (fx = {'true' if FX else 'false'}, {'wsem_where' if G.weighted else SEM[MIX]}) agrees with the implementation on this history:", r == [])
     if fx != CLAIMED_FX:
         print("the theorems of Props/C01.v are about fx = true: they do not speak about this tree")
-    if mix != CLAIMED_MIX:
+    if mix is None:
+        print("the rule of State.revert(subset) of this tree was not recognised (neither the row-wise selection of values AND weights of the "
+              "tie of Props/C01.v, nor the blend of the code before fe0cadd)")
+    elif mix != CLAIMED_MIX:
         print("the tie of Props/C01.v is made with xsem_where: this tree does not select in State.revert(subset)")
     wrong = bool(bad or r or scope_bad or fx != CLAIMED_FX or mix != CLAIMED_MIX)
     print("REPLAY", "FAILS" if wrong else "passes")
